@@ -22,6 +22,7 @@
 EXTENDS Integers, Sequences, FiniteSets, TLC
 
 CONSTANTS Dials, Accepts,          \* call instances
+          AbortDials,              \* dials whose peer gives up after opening the stream, before writing the id
           DSide(_), DId(_),        \* side that dials, id dialled
           ASide(_), AId(_),        \* side that accepts, id accepted
           W, IssueMax, MaxT,
@@ -106,9 +107,14 @@ DialOpen_(d) ==           \* call.dial, mux.dial.opened
   /\ UNCHANGED <<dres, idw, ackv, runv, brkv, twv, accv, panicked, nid>>
 
 DialWrite_(d) ==          \* mux.dial.wrote
-  /\ dpc[d] = "opened"
+  /\ dpc[d] = "opened" /\ d \notin AbortDials
   /\ dpc' = [dpc EXCEPT ![d] = "wrote"] /\ idw' = [idw EXCEPT ![d] = TRUE]
   /\ UNCHANGED <<dres, dt, loc, ackv, runv, brkv, twv, accv, panicked, nid>>
+
+DialAbort_(d) ==          \* the peer closes the stream it opened without writing an id
+  /\ d \in AbortDials /\ dpc[d] = "opened"
+  /\ dpc' = [dpc EXCEPT ![d] = "ret"] /\ dres' = [dres EXCEPT ![d] = "aborted"]
+  /\ UNCHANGED <<dt, strv, runv, brkv, twv, accv, panicked, nid>>
 
 DialAck_(d) ==            \* mux.dial.ack, ret.dial
   /\ dpc[d] = "wrote"
@@ -141,6 +147,12 @@ RunId_(s) ==              \* mux.run.id
   /\ rpc[s] = "stream" /\ idw[rcur[s]]
   /\ rpc' = [rpc EXCEPT ![s] = "id"]
   /\ UNCHANGED <<dialv, strv, rcur, rslot, brkv, twv, accv, panicked, nid>>
+
+RunIdFail_(s) ==          \* mux.run.id b=0: reading the id failed, the stream is closed, the loop goes on
+  /\ rpc[s] = "stream" /\ dres[rcur[s]] = "aborted"
+  /\ loc' = [loc EXCEPT ![rcur[s]] = "closed"]
+  /\ rpc' = [rpc EXCEPT ![s] = "accept"] /\ rcur' = [rcur EXCEPT ![s] = None]
+  /\ UNCHANGED <<dialv, idw, ackv, rslot, brkv, twv, accv, panicked, nid>>
 
 RunSlot_(s) ==            \* mux.getstream, mux.run.slot
   /\ rpc[s] = "id"
@@ -263,6 +275,8 @@ NextId_(s) ==             \* atomic.AddUint32
 DialOpen(d) == DialOpen_(d) /\ UNCHANGED now
 DialWrite(d) == DialWrite_(d) /\ UNCHANGED now
 DialAck(d) == DialAck_(d) /\ UNCHANGED now
+DialAbort(d) == DialAbort_(d) /\ UNCHANGED now
+RunIdFail(s) == RunIdFail_(s) /\ UNCHANGED now
 RunSpawn(s) == RunSpawn_(s) /\ UNCHANGED now
 RunStream(s, d) == RunStream_(s, d) /\ UNCHANGED now
 RunId(s) == RunId_(s) /\ UNCHANGED now
@@ -288,8 +302,8 @@ LagAccept(a) == ~MaxProgress /\ AcceptRearm(a)
 
 \* Steps that take no time once enabled
 Instant ==
-  \/ \E d \in Dials : DialWrite(d) \/ DialAck(d) \/ TWWakeDone(d) \/ TWWakeTimeout(d) \/ TWFinish(d) \/ TWUnstick(d)
-  \/ \E s \in Sides : RunSpawn(s) \/ RunId(s) \/ RunSlot(s) \/ RunPark(s) \/ (\E d \in Dials : RunStream(s, d))
+  \/ \E d \in Dials : DialWrite(d) \/ DialAck(d) \/ DialAbort(d) \/ TWWakeDone(d) \/ TWWakeTimeout(d) \/ TWFinish(d) \/ TWUnstick(d)
+  \/ \E s \in Sides : RunSpawn(s) \/ RunId(s) \/ RunIdFail(s) \/ RunSlot(s) \/ RunPark(s) \/ (\E d \in Dials : RunStream(s, d))
   \/ \E a \in Accepts : AcceptTake(a) \/ AcceptClose(a) \/ AcceptAck(a) \/ AcceptTimeout(a) \/ AcceptDelete(a)
 
 Tick ==
@@ -300,9 +314,9 @@ Tick ==
 
 \* a flat disjunction of named actions, so that TLC's graph dump labels every edge Action(args)
 Next ==
-  \/ \E d \in Dials : \/ EnvDial(d) \/ DialWrite(d) \/ DialAck(d)
+  \/ \E d \in Dials : \/ EnvDial(d) \/ DialWrite(d) \/ DialAck(d) \/ DialAbort(d)
                        \/ TWWakeDone(d) \/ TWWakeTimeout(d) \/ TWFinish(d) \/ TWUnstick(d) \/ LagTW(d)
-  \/ \E s \in Sides : \/ RunSpawn(s) \/ RunId(s) \/ RunSlot(s) \/ RunPark(s) \/ NextId(s)
+  \/ \E s \in Sides : \/ RunSpawn(s) \/ RunId(s) \/ RunIdFail(s) \/ RunSlot(s) \/ RunPark(s) \/ NextId(s)
                        \/ \E d \in Dials : RunStream(s, d)
   \/ \E a \in Accepts : \/ EnvAccept(a) \/ AcceptTake(a) \/ AcceptClose(a) \/ AcceptAck(a)
                          \/ AcceptTimeout(a) \/ AcceptDelete(a) \/ LagAccept(a)
@@ -347,7 +361,7 @@ AcceptsReturn == \A a \in Accepts : (apc[a] = "wait") ~> (apc[a] = "ret")
 
 \* C06/C09: an accept and a dial that are the only users of their id and are issued less than W
 \* apart (either order) both succeed, whatever happens on the other ids.  (MaxProgress only.)
-Sole(a, d) == /\ AId(a) = DId(d) /\ ASide(a) = Other(DSide(d))
+Sole(a, d) == /\ AId(a) = DId(d) /\ ASide(a) = Other(DSide(d)) /\ d \notin AbortDials
               /\ \A b \in Accepts \ {a} : ~(AId(b) = AId(a) /\ ASide(b) = ASide(a))
               /\ \A e \in Dials \ {d} : ~(DId(e) = DId(d) /\ DSide(e) = DSide(d))
 InWindow(a, d) == at[a] >= 0 /\ dt[d] >= 0 /\ at[a] - dt[d] < W /\ dt[d] - at[a] < W
